@@ -116,6 +116,12 @@ Section Facts.
   Proof. reflexivity. Qed.
   Lemma ev_ECallP id rs en tr : ev (ECallP id rs) en tr = (RVal rs, en, tr ++ [Ev id []]).
   Proof. reflexivity. Qed.
+  Lemma ev_ECallA id args rs en tr : ev (ECallA id args rs) en tr =
+    match ev_list args en tr with
+    | (RVal vs, en', tr') => (RVal rs, en', tr' ++ [Ev id vs])
+    | x => x
+    end.
+  Proof. reflexivity. Qed.
   Lemma ev_EBin op a b en tr : ev (EBin op a b) en tr =
     ev1 a en tr (fun x en1 tr1 => ev1 b en1 tr1 (fun y en2 tr2 =>
       match bin_eval op x y with RVal v => (RVal [v], en2, tr2) | r => (cast r, en2, tr2) end)).
